@@ -111,6 +111,38 @@ class Ctx:
         r = subprocess.run(cmd, cwd=self.repo, env=e, stdout=subprocess.PIPE, stderr=subprocess.STDOUT, text=True)
         return r.returncode, r.stdout
 
+    def inpkg_binary(self, tags="verif"):
+        """Compiles the in-package test binary of cmd/whawty-auth once; run it with run_inpkg()."""
+        out = os.path.join(self.scratch, "bin", "inpkg.test")
+        if os.path.exists(out):
+            return out
+        self.snapshot_repo()
+        dst = os.path.join(self.repo, "cmd", "whawty-auth")
+        for f in sorted(os.listdir(os.path.join(VERIF, "harness", "inpkg"))):
+            if f.endswith(".go"):
+                shutil.copy(os.path.join(VERIF, "harness", "inpkg", f), os.path.join(dst, "zz_verif_" + f))
+        cdst = os.path.join(self.repo, "verifconcrete")
+        shutil.rmtree(cdst, ignore_errors=True)
+        shutil.copytree(os.path.join(VERIF, "harness", "go", "concrete"), cdst)
+        os.makedirs(os.path.dirname(out), exist_ok=True)
+        r = subprocess.run(["go", "test", "-c", "-vet=off", "-tags", tags, "-o", out, "./cmd/whawty-auth"], cwd=self.repo,
+                           env=goenv(), stdout=subprocess.PIPE, stderr=subprocess.STDOUT, text=True)
+        if r.returncode != 0:
+            self.fatal("in-package test binary does not build:\n" + r.stdout[-3000:])
+        return out
+
+    def run_inpkg(self, run, env=None, timeout=900):
+        exe = self.inpkg_binary()
+        e = goenv()
+        e.update(env or {})
+        try:
+            r = subprocess.run([exe, "-test.run", "^" + run + "$", "-test.timeout", "%ds" % timeout, "-test.count", "1"],
+                               cwd=os.path.join(self.repo, "cmd", "whawty-auth"), env=e, stdout=subprocess.PIPE,
+                               stderr=subprocess.STDOUT, text=True, timeout=timeout + 30)
+            return r.returncode, r.stdout
+        except subprocess.TimeoutExpired as ex:
+            return 124, "timeout"
+
     # ------------------------------------------------------------------ TLC
     def run_tlc(self, module, cfg, workers=1, simulate=None, depth=None, timeout=600, heap="6g",
                 extra=None, name=None, defines=None, dfs=False, deadlock=True):
